@@ -244,6 +244,10 @@ class C01(PokerProp):
     def oracle(self, case, evs):
         why = []
         total = sum(case["stacks"])
+        if evs and evs[0].kind == "ctor" and evs[0].ri != "ok" and evs[0].rm == "ok":
+            # the forced bets of a valid table (the model posts them: short stacks post what they have) could not be posted
+            return [f"a valid table could not be set up: the constructor failed while posting antes / blinds "
+                    f"(stacks {case['stacks']}, ante {case['ante']}, blinds {case['blinds']})"]
         for e in evs:
             o = e.oi
             if o is None or e.kind == "probe" and e.ri != "ok":
